@@ -333,12 +333,13 @@ func runC20Case(c *fw.Ctx, id string, cs c20Case) {
 	cl.EchoResults = true
 	dl := &dialLog{}
 	var faultOnce, nsreOnce int32
+	readErrAt := 3 + r.Intn(6) // drawn here: the dialer runs in the client's goroutines
 	var fault func(addr string, n int) *faultconn.Fault
 	switch cs.Fault {
 	case "read-error":
 		fault = func(addr string, n int) *faultconn.Fault {
 			if n == 1 && addr != "rs0:16020" {
-				return &faultconn.Fault{Kind: faultconn.Read, K: 3 + r.Intn(6), Mode: "error"}
+				return &faultconn.Fault{Kind: faultconn.Read, K: readErrAt, Mode: "error"}
 			}
 			return nil
 		}
